@@ -156,6 +156,20 @@ pub fn generate(_ctx: &mut Ctx, seed: u64, i: usize, kind: &str, always_malforme
     let inline_last = !lang.close.is_empty() && rng.chance(1, 5) && !lines.is_empty();
     if inline_last { src.pop(); if src.ends_with('\r') { src.pop(); } src += " "; }
     src += &format!("{indent}{}</block>{}\n", lang.open, lang.close);
+    // one case in three: one or two more sibling blocks carrying the same rule with contents of their own, so that
+    // several blocks of a file can violate (or err) in the same run
+    if kind != "affects" && rng.chance(1, 3) {
+        for _ in 0..1 + rng.below(2) {
+            if rng.chance(1, 2) { src += "between\n"; }
+            src += &format!("{indent}{}{tag}{}\n", lang.open, lang.close);
+            for _ in 0..rng.below(6) {
+                let l = if numeric && rng.chance(9, 10) { ["2", "10", "9.5", "-3", "0", "1e1", "+5", "100"][rng.below(8)].to_string() } else { rng.pick(LINES).to_string() };
+                src += &l;
+                src += "\n";
+            }
+            src += &format!("{indent}{}</block>{}\n", lang.open, lang.close);
+        }
+    }
     let path = format!("f.{}", lang.ext);
     let changes = if all_changed {
         Some([(path.clone(), (1..=src.lines().count() + 1).map(|l| (l, None)).collect())].into_iter().collect())
